@@ -4,8 +4,8 @@
    IntoIter::drop, clone/extend/resize under construction) by the correspondence run with a panic
    injected at callback invocations and destructors. *)
 From Coq Require Import ZArith List Bool Lia.
-From MV Require Import Ast Eval Scalar Machine Model Policy.
-From MV.Proofs Require Import Arith Logic Prim View OpsLocal Guards Grow Drops CapHistory Core DrainIt Refine FilterIt Clone Extend CloneSlice.
+From MV Require Import Ast Eval Scalar Machine Model Policy DrainAt.
+From MV.Proofs Require Import Arith Logic Prim View OpsLocal Guards Grow Drops CapHistory Core DrainIt Refine FilterIt Clone Extend CloneSlice DrainGuardAt.
 Import ListNotations.
 Open Scope Z_scope.
 
@@ -169,3 +169,19 @@ Theorem C04_clone_panics_leave_the_vector_valid :
                          (forall e, e < next_elem s -> ledger s' e = ledger s e)).
 Proof. exact extend_from_slice_any. Qed.
 Print Assumptions C04_clone_panics_leave_the_vector_valid.
+
+(* impl Drop for Drain as it runs on the Drain OBJECT of the world -- the regenerated loop body
+   (DrainAt.drain_rest_at, tied in EquivDropGuard.v) with Rust's drop glue written out: the guard built
+   inside the loop runs the regenerated DropGuard::drop (DrainAt.drain_guard_at) when `drop(item)`
+   unwinds, the last statement's temporary guard runs it at once -- with ANY set of panicking
+   destructors: in every outcome other than the abort of a double panic, also when a destructor panics
+   half way, the vector is prefix ++ suffix and the window has been destroyed exactly once *)
+Theorem C04_drain_drop_on_the_object_survives_panicking_destructors :
+  forall cfg, cfg_ok cfg -> needs_drop cfg = true ->
+  forall s i0 d b bl off i j r,
+  iter_get i0 s = (Val (IDrain d), s) -> drain_inv cfg s d b bl off i j r ->
+  NoDup (window bl i j) -> (forall e, In e (window bl i j) -> ledger s e = Live) ->
+  post (DrainAt.drain_drop_at cfg (S (Z.to_nat (j - i))) i0 s)
+    (fun _ s' => drain_gone cfg s s' d b bl i j r) (fun s' => drain_gone cfg s s' d b bl i j r).
+Proof. exact DrainGuardAt.drain_drop_at_machine. Qed.
+Print Assumptions C04_drain_drop_on_the_object_survives_panicking_destructors.
